@@ -1,0 +1,30 @@
+//go:build verif
+
+// Contracts for the deductive verifier in /verif (comment-only; compiled only with -tags verif).
+
+package verifier
+
+// The client-side check of a cosignature (C19): it passes exactly when one of the witness signatures
+// verifies, under this witness's key, over the TLS encoding of the signed tree head it accompanies.
+//@ func (WitnessVerifier).VerifySignature
+//@ props C19
+//@ arith int
+//@ pure
+//@ site tls.Marshal#1 as m
+//@ site VerifySignature#1 as v
+//@ requires wv.SigVerifier != nil && validKey(wv.SigVerifier.PubKey)
+//@ loop 1 invariant !v.called || v.res != nil
+//@ ensures [no-signature-no-pass] len(sth.WitnessSigs) == 0 ==> result != nil && !v.called
+//@ ensures [an-unencodable-head-does-not-pass] m.called && m.res1 != nil ==> result != nil && !v.called
+//@ ensures [passes-exactly-when-some-signature-verifies] result == nil <==> (v.called && v.res == nil)
+//@ at m assert [over-the-signed-tree-head-it-accompanies] typeof(m.val) == ct.SignedTreeHead && as(m.val, ct.SignedTreeHead) == sth.SignedTreeHead
+//@ at v assert [under-this-witnesss-key-over-those-bytes] v.s == *wv.SigVerifier && v.data == m.res0 && v.sig.Signature == sig.Signature && v.sig.Algorithm == sig.Algorithm
+
+//@ func NewWitnessVerifier
+//@ props C19
+//@ modifies nothing
+//@ frame-trusted builds a new verifier
+//@ site NewSignatureVerifier#1 as nv
+//@ requires validKey(pk)
+//@ ensures [a-verifier-for-exactly-that-key-or-an-error] (nv.res1 != nil ==> result1 != nil && result0 == nil) && (nv.res1 == nil ==> result1 == nil && result0 != nil && result0.SigVerifier == nv.res0)
+//@ at nv assert [for-the-given-key] nv.pk == pk
